@@ -3,6 +3,7 @@
   Statements are restated in PycommProps/C07.lean.
 -/
 import PycommProofs.CodecSpec
+import PycommProofs.ArgOf
 import PycommModel.Generated.Consts
 namespace Pycomm
 
@@ -189,13 +190,20 @@ theorem encode_fixedStr_wire (size : Nat) (lenK : IntK) (cs : Name)
     simp [WF.packInt_len lenK cs.length hk hl, text_latin1_wire cs hc, bind, Except.bind]
   · simp [leBytes_length, zeros]; omega
 
+-- STATEMENT CHANGED: the hypothesis `h` now speaks of `encode t (argOf t p.1)`, the element as the array hands
+-- it to the element codec (`argOf t x = x` for every element type but STRINGI: `argOf_of_ne_stringI`; a STRINGI
+-- element is ONE item, passed as the single star-argument of `STRINGI.encode(*strings)`).  With `encode t p.1`
+-- the statement is false for `t = .stringI`: the empty item list encodes at top level, but not as an element:
+#guard (encode .stringI (.list [])).toOption == some [0]
+#guard (encode (.arr (.fixed 1) .stringI) (.list [.list []])).toOption == none
 /-- arrays are the concatenation of their elements' encodings -/
 theorem encode_array_wire (n : Nat) (t : Ty) (vs : List PyVal) (encs : List Bytes) (hb : t.isBits = none)
     (hn : vs.length = n) (hl : encs.length = vs.length)
-    (h : ∀ p ∈ vs.zip encs, encode t p.1 = .ok p.2) :
+    (h : ∀ p ∈ vs.zip encs, encode t (argOf t p.1) = .ok p.2) :
     encode (.arr (.fixed n) t) (.list vs) = .ok encs.flatten := by
   subst hn
-  simp [encode, PyVal.len?, hb, PyVal.seq?, WF.encodeList_flatten (encode t) vs encs hl h]
+  simp [encode, PyVal.len?, hb, PyVal.seq?,
+    WF.encodeList_flatten (fun x => encode t (argOf t x)) vs encs hl h]
 
 /-- the i-th generated DataTypes row -/
 def specCodes : List (Nat × Nat) :=
